@@ -1978,10 +1978,19 @@ xact_t * instance_t::parse_xact(char *          line,
 
     if (*p == ';') {
       // This is a trailing note, and possibly a metadata info tag
+      const string payee_before =
+        last_post ? last_post->payee_from_tag() : empty_string;
       item->append_note(p + 1, *context.scope, true);
       item->add_flags(ITEM_NOTE_ON_NEXT_LINE);
       item->pos->end_pos = context.curr_pos;
       item->pos->end_line++;
+      if (last_post) {
+        // A Payee tag on a note line that follows the posting counts like
+        // one on the posting line itself (see parse_post)
+        const string payee_after = last_post->payee_from_tag();
+        if (payee_after != "" && payee_after != payee_before)
+          last_post->set_payee(context.journal->validate_payee(payee_after));
+      }
     }
     else if ((remlen > 7 && *p == 'a' &&
               std::strncmp(p, "assert", 6) == 0 &&
